@@ -28,11 +28,11 @@ Lemma proto_repl_tcp_bound E clk ci tc p :
 Proof. intros H. unfold proto_repl_tcp. rewrite (tcp_identify_sticky E tc p H). reflexivity. Qed.
 
 Lemma stun_not_none : PROTO_STUN <> PROTO_NONE.
-Proof. unfold PROTO_STUN, PROTO_NONE. lia. Qed.
+Proof. vm_compute. discriminate. Qed.
 Lemma ssh_not_none : PROTO_SSH <> PROTO_NONE.
-Proof. unfold PROTO_SSH, PROTO_NONE. lia. Qed.
+Proof. vm_compute. discriminate. Qed.
 Lemma ghost_not_none : PROTO_GHOST <> PROTO_NONE.
-Proof. unfold PROTO_GHOST, PROTO_NONE. lia. Qed.
+Proof. vm_compute. discriminate. Qed.
 
 (* what is returned: the responder's client information and payload; the block as it was *)
 Theorem later_stun_repl E clk ci tc p :
